@@ -121,6 +121,13 @@ func (h *NFSProcedureHandler) HandleCall(call *RPCCall, body io.Reader, authCtx 
 	// drain-and-swap blocks until the goroutine's filesystem work finishes,
 	// not just until HandleCall returns on timeout.
 
+	// Close or Unexport has released the handles and caches: nothing is served
+	// any more (the connection is dropped).
+	if handler.closed {
+		handler.policyRWMu.RUnlock()
+		return nil, fmt.Errorf("export is closed")
+	}
+
 	// Snapshot options for this request
 	opts := handler.snapshotOptions()
 
